@@ -123,7 +123,7 @@ CLAIMS['C04'] = dict(
     text='Narrow claim: necessary structural conditions only. Decided for every input: technique priority cfi > frame pointer > scan with each later technique guarded by frame.is_none() and no way back; technique labels; '
          'arm64.rs and arm64_old.rs are the same MIR modulo the context type; every register name the unwinders use exists in its context\'s tables and every name inserted into or tested against a validity set is the canonical (memoized) spelling; '
          'scan windows (40/160 words, 15 x 16 bytes on amd64 Windows, 1024 bytes on MIPS) equal the documented values. Two alias-spelling defects found by the last rule were repaired in /repo. '
-         'That the right frames come out of a given stack is behavioural and NOT decided: a fault inside a technique\'s arithmetic is invisible here. The x86 FPO technique is checked as a formula table (shared with C07.6): reaching definitions along every path to every set_caller_register call, compared as linear address forms with the documented formulae, and the two decisions compared with the documented ones. ARM64 pointer-authentication mask: all ones below the next power of two above max(2^47-1, end of the highest module) (C04.8).',
+         'That the right frames come out of a given stack is behavioural and NOT decided: a fault inside a technique\'s arithmetic is invisible here. The x86 FPO technique is checked as a formula table (shared with C07.6): reaching definitions along every path to every set_caller_register call, compared as linear address forms with the documented formulae, and the two decisions compared with the documented ones. ARM64 pointer-authentication mask: all ones below the next power of two above max(2^47-1, end of the highest module) (C04.8). C04.9: the CfiStackWalker handed to the symbol file is built field by field from the callee frame. C04.10: a MIPS walk stays in one ABI - the 32/64-bit dispatch predicate is `flags contain CONTEXT_MIPS64 => n64`, and each scan hands the caller frame context flags that classify it like its callee (a genuine mips64 defect found by this rule was repaired in /repo).',
     note='Trusted: rustc MIR, the C18 tables (reused). The twin comparison is order-sensitive over statements and terminators with unnamed locals anonymised; reordering independent statements in only one twin is reported.',
     ref='DESIGN.md §3 C04')
 CLAIMS['C08'] = dict(
@@ -152,7 +152,7 @@ CLAIMS['C02'] = dict(
     technique='endianness provenance dataflow on every scroll read, LE/BE twin comparison of byte-order branches, derive pairing from the impl table, insert discipline of the directory loop; who-may-call on text decoders',
     text='Narrow claim: only the byte-order and layout-pairing clauses. Every scroll read that takes an Endian context (329 call sites in minidump and minidump-common) receives an endianness data-flow-derived from a parameter or field, '
          'and Endian constants occur only in the signature probe of Minidump::read; every branch on the byte order has a Little and a Big arm that are LE/BE twins; every format.rs type read through scroll derives Pread and SizeWith from one field list '
-         '(the five hand-written readers are a reviewed list); duplicate directory entries are stored by an unconditional insert in file order, so the last one is served. Field offsets/padding against the serializer, identifier derivation and memory contents relate values to values and are NOT decided. Text decoding: only the BOM-agnostic, replacement-free encoding_rs decoders, with the UTF-16 encoding selected by the byte order (arms read from discriminant facts). The directory loop records entries only and the cached system info is read through the finished map (C02.4b). C02.6: memory regions carry base / size / bytes straight from their descriptor (Memory64 slices consecutive). C02.7: the CPU_INFORMATION union (24 undecoded bytes) is only ever consumed as the receiver of pread_with(_, 0, endian), never byte-wise.',
+         '(the five hand-written readers are a reviewed list); duplicate directory entries are stored by an unconditional insert in file order, so the last one is served. Field offsets/padding against the serializer, identifier derivation and memory contents relate values to values and are NOT decided. Text decoding: only the BOM-agnostic, replacement-free encoding_rs decoders, with the UTF-16 encoding selected by the byte order (arms read from discriminant facts). The directory loop records entries only and the cached system info is read through the finished map (C02.4b). C02.6: memory regions carry base / size / bytes straight from their descriptor (Memory64 slices consecutive). C02.7: the CPU_INFORMATION union (24 undecoded bytes) is only ever consumed as the receiver of pread_with(_, 0, endian), never byte-wise. C02.8/C02.9: the debug-id and code-id derivation tables (read_debug_id, MinidumpModule::code_identifier) are extracted arm by arm: Pdb20/Pdb70/Elf forms, the Elf all-zero test over the whole build id, GUID read at offset 0 with the dump\'s byte order, format templates from the compiled constants.',
     note='Trusted: scroll and its derives, rustc MIR and impl table.',
     ref='DESIGN.md §3 C02')
 CLAIMS['C15'] = dict(
